@@ -403,6 +403,10 @@ pub struct E2eCase {
     pub prose_between: bool,
     pub trailing_text: bool,
     pub unterminated_tail: bool,
+    /// 1: a document whose tests all pass is given before this one in the same `scrut update`
+    /// run (it must stay untouched and must not disturb the update of this one); 2: after it
+    #[serde(default)]
+    pub passing_neighbour: u8,
 }
 
 fn check_e2e(c: &E2eCase) -> V {
@@ -458,7 +462,15 @@ fn check_e2e(c: &E2eCase) -> V {
     }
     let path = dir.path().join("doc.md");
     std::fs::write(&path, &doc).ok();
-    let args = ["update", "--replace", "--assume-yes", "--no-color", path.to_str().unwrap()];
+    // a neighbour document in the same run whose only test passes: `update` leaves it alone
+    let neighbour = dir.path().join("neighbour.md");
+    let neighbour_text = "# neighbour\n\n```scrut\n$ echo neighbour output\nneighbour output\n```\n\nText of the neighbour.\n";
+    std::fs::write(&neighbour, neighbour_text).ok();
+    let args: Vec<&str> = match c.passing_neighbour {
+        1 => vec!["update", "--replace", "--assume-yes", "--no-color", neighbour.to_str().unwrap(), path.to_str().unwrap()],
+        2 => vec!["update", "--replace", "--assume-yes", "--no-color", path.to_str().unwrap(), neighbour.to_str().unwrap()],
+        _ => vec!["update", "--replace", "--assume-yes", "--no-color", path.to_str().unwrap()],
+    };
     let r1 = match run_scrut(&dir, &args, 60) {
         Ok(r) => r,
         Err(e) => inconclusive(&format!("scrut update: {e}")),
@@ -467,6 +479,7 @@ fn check_e2e(c: &E2eCase) -> V {
     let v = V::pass()
         .nt(c.tests.iter().any(|t| t.2 == 0) && c.tests.iter().any(|t| t.2 != 0) && (c.trailing_text || c.unterminated_tail))
         .label_if(c.unterminated_tail, "unterminated_tail")
+        .label_if(c.passing_neighbour != 0, "passing_document_in_the_same_run")
         .label_if(c.prose_between, "prose_between");
     let fail = |m: String| V::fail(format!("{m}\n--- original:\n{doc}\n--- after update:\n{after1}\nstderr: {}", truncate(&r1.stderr, 500)));
     if r1.code != Some(0) {
@@ -476,6 +489,12 @@ fn check_e2e(c: &E2eCase) -> V {
         if !after1.lines().any(|l| l == o) {
             return fail(format!("line {o:?} outside of the test blocks is gone"));
         }
+    }
+    if c.passing_neighbour != 0 && std::fs::read_to_string(&neighbour).unwrap_or_default() != neighbour_text {
+        return fail(format!(
+            "the neighbour document of the same run, whose test passes, was changed to:\n{}",
+            std::fs::read_to_string(&neighbour).unwrap_or_default()
+        ));
     }
     if after1.matches("# keep this comment").count() != c.tests.len() {
         return fail("comment lines were not kept".into());
@@ -517,12 +536,14 @@ fn e2e_strategy() -> BoxedStrategy<E2eCase> {
         any::<bool>(),
         any::<bool>(),
         proptest::bool::weighted(0.3),
+        prop_oneof![2 => Just(0u8), 2 => Just(1u8), 1 => Just(2u8)],
     )
-        .prop_map(|(tests, prose_between, trailing_text, unterminated_tail)| E2eCase {
+        .prop_map(|(tests, prose_between, trailing_text, unterminated_tail, passing_neighbour)| E2eCase {
             tests,
             prose_between,
             trailing_text,
             unterminated_tail,
+            passing_neighbour,
         })
         .boxed()
 }
@@ -553,6 +574,15 @@ pub fn property() -> Property {
                 max_workers: 12,
                 strategy: Box::new(|_| e2e_strategy()),
                 check: Box::new(check_e2e),
+            }),
+            Box::new(PropPart::<crate::c06::MdSoup> {
+                name: "soup",
+                rule: "arbitrary sequences of Markdown-like lines (unbalanced fences, block skeletons, `$` / `>` / `[n]` lines anywhere, random Unicode text, text ending in LF / nothing / a bare CR) that parse: `update` with empty outputs must not crash, must keep the commands and, where the rewritten tests pass, must be idempotent. Non-trivial: >=2 tests",
+                quick: 40_000,
+                thorough: 1_000_000,
+                max_workers: 0,
+                strategy: Box::new(|_| crate::c06::soup_strategy()),
+                check: Box::new(check_soup),
             }),
         ],
     }
@@ -589,5 +619,30 @@ pub fn fuzz_update(text: &str, tests: &[TestCase]) -> Option<String> {
     if cmds(tests) != cmds(&tests2) {
         return Some(format!("update changes the commands {:?} to {:?}\n--- original:\n{text}\n--- updated:\n{updated}", cmds(tests), cmds(&tests2)));
     }
+    // the same (empty) outputs again: nothing left to change
+    let outcomes2 = match guard(|| outcomes_for(&tests2, &outputs)) {
+        Ok(o) => o,
+        Err(p) => return Some(format!("validate crashed: {p}")),
+    };
+    if outcomes2.iter().all(|o| o.result.is_ok()) {
+        match run_update(&updated, &outcomes2) {
+            Ok(u) if u == updated => {}
+            Ok(u) => return Some(format!("update is not idempotent\n--- original:\n{text}\n--- updated:\n{updated}\n--- updated again:\n{u}")),
+            Err(m) => return Some(format!("second update: {m}")),
+        }
+    }
     None
+}
+
+fn check_soup(c: &crate::c06::MdSoup) -> V {
+    let text = c.text();
+    let tests = match md_parse(&text) {
+        Ok(Ok((_, t))) => t,
+        _ => return V::pass().label("document_not_parsable_skipped"),
+    };
+    let v = V::pass().nt(tests.len() >= 2).label_if(tests.is_empty(), "no_tests").label_if(c.final_cr && !c.final_newline, "ends_in_bare_cr");
+    match crate::fuzz::update(text.as_bytes()) {
+        Some(m) => V::fail(m),
+        None => v,
+    }
 }
